@@ -244,6 +244,19 @@ func ruleC16Reserve(cx *Ctx) {
 		okBuf = true
 	}
 	cx.R.Check(okBuf, rule, name, "slot buffer", cx.P.where(st.in), "the buffer written is the producerBuffer loaded before the CAS")
+	// ... and after the index: lv(pIndex) -> [mask, buffer] -> cas(pIndex). A chunk pointer (or mask) read before the index
+	// may belong to the chunk a concurrent resize has just replaced although the index read afterwards is even again
+	if pl, ok := p.(ssa.Instruction); ok {
+		n := 0
+		allInstrs(fn, func(in ssa.Instruction) {
+			c, isC := in.(*ssa.Call)
+			if !isC || !(atomicOp(c, pb, "Load") || atomicOp(c, pm, "Load")) {
+				return
+			}
+			n++
+			cx.R.Check(instrDominates(pl, c), rule, name, fmt.Sprintf("index read before chunk state #%d", n), cx.P.where(in), "the producer's mask and buffer are read after the producerIndex value the CAS expects (a successful CAS then ties them to that index)")
+		})
+	}
 	_, isParam := stripConv(st.val).(*ssa.Parameter)
 	cx.R.Check(isParam, rule, name, "stored value", cx.P.where(st.in), "the stored element is the pushed argument")
 	// resize bit tested before the CAS: CAS guarded by (p & 1 == 1) == false
